@@ -7,6 +7,7 @@ import CtrlVerif.Props.C15GenKeys
 import CtrlVerif.Props.C15GenReduce
 import CtrlVerif.Props.C15Flag
 import CtrlVerif.Props.C15GenMinreal
+import CtrlVerif.Props.C15GenMinrealC
 
 #print axioms CtrlVerif.C15.timescale_resp
 #print axioms CtrlVerif.C15.similarity_relations
@@ -48,6 +49,7 @@ import CtrlVerif.Props.C15GenMinreal
 #print axioms CtrlVerif.C15.closeQ_default_self
 #print axioms CtrlVerif.C15.closeQ_default_separated
 #print axioms CtrlVerif.C15.closeQI_iff
+#print axioms CtrlVerif.C15.closeQI_neg
 #print axioms CtrlVerif.C15.closeQI_default_self
 #print axioms CtrlVerif.C15.closeQI_real_default
 #print axioms CtrlVerif.C15.minreal_sem_graded
@@ -102,3 +104,8 @@ import CtrlVerif.Props.C15GenMinreal
 #print axioms CtrlVerif.C15GenMinreal.generated_entryBody_eq
 #print axioms CtrlVerif.C15GenMinreal.generated_zLoop_sublists
 #print axioms CtrlVerif.C15GenMinreal.generated_close_eq_closeQ
+#print axioms CtrlVerif.C15GenMinreal.normSqQI_nonneg
+#print axioms CtrlVerif.C15GenMinreal.sq_max_of_nonneg
+#print axioms CtrlVerif.C15GenMinreal.default_tol_sq
+#print axioms CtrlVerif.C15GenMinreal.default_tol_pos
+#print axioms CtrlVerif.C15GenMinreal.generated_close_eq_closeQI
